@@ -453,6 +453,17 @@ func (in *Interp) execInstr(fr *frame, instr ssa.Instruction) {
 		if w, ok := scalarElem(st.Elem()); ok {
 			fr.env[i] = in.newScalarSlice(st.Elem(), w, n, cp)
 		} else {
+			if !n.IsConst() && cp == n && !in.branch(in.C.Ule(n, in.u64(partialMakeLimit))) {
+				// a long slice of symbolic length: materialise a prefix only (see Array.Partial)
+				s := in.newGenericSlice(st.Elem(), partialMakeLimit+1, partialMakeLimit+1)
+				o := in.heap[s.Base.Obj]
+				a := o.V.(Array)
+				a.Partial = true
+				o.V = a
+				s.Len, s.Cap = n, cp
+				fr.env[i] = s
+				break
+			}
 			cn := in.concretize(cp, "make cap")
 			ln := in.concretize(n, "make len")
 			fr.env[i] = in.newGenericSlice(st.Elem(), int(ln), int(cn))
@@ -494,6 +505,10 @@ func (in *Interp) execInstr(fr *frame, instr ssa.Instruction) {
 		in.unsupported("instruction %T", instr)
 	}
 }
+
+// partialMakeLimit: make([]T, n) for non-scalar T with symbolic n enumerates n up to this value and
+// keeps one more path for all larger n with a partially materialised backing array.
+const partialMakeLimit = 64
 
 // toIdx converts an integer value to a 64-bit term (sign/zero extension per type).
 func (in *Interp) toIdx(v Value, t types.Type) *smt.Term {
